@@ -31,10 +31,17 @@ type c19FS struct {
 	synced    int
 	refAtLink []int32
 	snap      *snapshot
+	introAt   int    // the link call during which a concurrent introduction lands (-1: none)
+	intro     func() // publishes a newer snapshot, as the introducer would
+	links     int
 }
 
 func (f *c19FS) CreateHardLink(src, dst string, _ func(string) bool) error {
 	f.refAtLink = append(f.refAtLink, f.snap.ref)
+	if f.links == f.introAt && f.intro != nil {
+		f.intro()
+	}
+	f.links++
 	if len(f.linked) == f.failAt {
 		return errors.New("link failed")
 	}
@@ -55,10 +62,13 @@ func (f *c19FS) SyncPath(string)    { f.synced++ }
 // pinned snapshot's parts, and the parent directory is synced; if any link fails the call
 // reports the error and removes the whole destination; a snapshot with only in-memory parts
 // writes nothing.
-// bound: 1..3 parts, each on disk or in memory, the k-th hard link may fail
+// bound: 1..3 parts, each on disk or in memory, the k-th hard link may fail; a newer snapshot (one more part, next epoch) may be introduced during the k-th link: manifest and links must still describe the snapshot pinned at the start
 // outside: the manifest also names in-memory parts of the pinned snapshot, which are not copied (the loader only opens part directories that exist); segment- and database-level snapshot orchestration, restoring and querying the copy
 func VerifH_C19_TakeFileSnapshot() {
-	rec := &c19FS{failAt: -1}
+	rec := &c19FS{failAt: -1, introAt: -1}
+	if zzverif.Bool("introduction during the copy") {
+		rec.introAt = zzverif.Choice("during link", 3)
+	}
 	if zzverif.Bool("linkFails") {
 		rec.failAt = zzverif.Choice("failAt", 3)
 	}
@@ -80,11 +90,30 @@ func VerifH_C19_TakeFileSnapshot() {
 		names = append(names, partName(uint64(i+1)))
 	}
 	tst := &tsTable{fileSystem: rec, snapshot: snap, l: logger.GetLogger("c19")}
+	introduced := false
+	rec.intro = func() {
+		// a flush/merge result is introduced while the copy is in progress: the table moves on to
+		// a newer snapshot (epoch 10, one more part) and drops its reference to the old one
+		p := &part{path: "/root/" + partName(9)}
+		p.partMetadata.ID = 9
+		next := snap.copyAllTo(10)
+		next.parts = append(next.parts, newPartWrapper(nil, p))
+		tst.replaceSnapshot(&next, false)
+		introduced = true
+	}
 	ok, err := tst.TakeFileSnapshot("/dst")
 	zzverif.Reach("taken")
-	zzverif.Assert(snap.ref == 1, "the pin taken for the snapshot is released afterwards")
-	for _, r := range rec.refAtLink {
-		zzverif.Assert(r >= 2, "the source snapshot is pinned while its parts are being linked")
+	if introduced {
+		zzverif.Assert(snap.ref == 0, "the pin taken for the snapshot is released afterwards")
+	} else {
+		zzverif.Assert(snap.ref == 1, "the pin taken for the snapshot is released afterwards")
+	}
+	for i, r := range rec.refAtLink {
+		if rec.introAt >= 0 && i > rec.introAt {
+			zzverif.Assert(r >= 1, "the source snapshot stays pinned after the table moved on")
+		} else {
+			zzverif.Assert(r >= 2, "the source snapshot is pinned while its parts are being linked")
+		}
 	}
 	failed := rec.failAt >= 0 && rec.failAt < disk
 	if failed {
